@@ -105,6 +105,7 @@ def main(argv=None):
 
     mon = Monitor(pid, getattr(prop, "classify", None))
     problems = []
+    reach_dumps = []
     if args.replay:
         core.use_repo()
         with open(args.replay) as f:
@@ -118,8 +119,15 @@ def main(argv=None):
             s.setdefault("tier", args.tier)
         if args.inline:
             core.use_repo()
-            for s in specs:
-                prop.run(s, mon)
+            from . import reach as reach_mod
+            reach = reach_mod.Reach(pid)
+            reach.start()
+            try:
+                for s in specs:
+                    prop.run(s, mon)
+            finally:
+                reach.stop()
+            reach_dumps.append(reach.dump())
         else:
             os.makedirs(os.path.join(VERIF, ".work"), exist_ok=True)
             workdir = tempfile.mkdtemp(prefix="%s-" % pid, dir=os.path.join(VERIF, ".work"))
@@ -129,6 +137,7 @@ def main(argv=None):
                 for r in results:
                     if r is not None:
                         mon.merge(r)
+                        reach_dumps.append(r.get("reach"))
             finally:
                 shutil.rmtree(workdir, ignore_errors=True)
 
@@ -156,6 +165,15 @@ def main(argv=None):
                     inconclusive.append("%r never observed: %s" % (cat, missing))
         if mon.evaluations == 0:
             inconclusive.append("no case was evaluated")
+        from . import reach as reach_mod
+        reach_summary = reach_mod.summary(pid, reach_dumps)
+        if reach_summary["anchor_patterns"] and not reach_summary["functions_entered"]:
+            inconclusive.append("the workload entered none of the functions the property is anchored in")
+        for need in getattr(prop, "REQUIRED_REACH", []):
+            if not any(k.endswith(":" + need) or k == need for k in reach_summary["per_function"]):
+                inconclusive.append("anchored function %r was never entered by the workload" % need)
+    else:
+        reach_summary = None
 
     replay_dir = os.path.join(VERIF, "replay")
     lines = []
@@ -176,7 +194,7 @@ def main(argv=None):
 
     wall = time.time() - t0
     if not args.replay and not args.no_evidence:
-        write_evidence(prop, pid, args, mon, wall, known_slugs, new_slugs, inconclusive)
+        write_evidence(prop, pid, args, mon, wall, known_slugs, new_slugs, inconclusive, reach_summary)
 
     for ln in lines:
         print(ln)
@@ -194,7 +212,7 @@ def main(argv=None):
     return rc
 
 
-def write_evidence(prop, pid, args, mon, wall, known_slugs, new_slugs, inconclusive):
+def write_evidence(prop, pid, args, mon, wall, known_slugs, new_slugs, inconclusive, reach_summary):
     os.makedirs(os.path.join(VERIF, "evidence"), exist_ok=True)
     seen = {}
     for k, v in mon.seen_sets.items():
@@ -214,6 +232,8 @@ def write_evidence(prop, pid, args, mon, wall, known_slugs, new_slugs, inconclus
         "repo": core.repo_state(),
         "notes": mon.notes,
     }
+    if reach_summary:
+        cov["anchor_reach"] = reach_summary
     if getattr(prop, "EXHAUSTIVE", None):
         ex = prop.EXHAUSTIVE
         cov["exhaustive"] = bool(ex.get(args.tier)) if isinstance(ex, dict) else bool(ex)
